@@ -285,8 +285,11 @@ func RecoverFile(path string, o *opt.Options) (db *DB, err error) {
 
 func recoverTable(s *session, o *opt.Options) error {
 	o = dupOptions(o)
-	// Mask StrictReader, lets StrictRecovery doing its job.
-	o.Strict &= ^opt.StrictReader
+	// Mask StrictReader, lets StrictRecovery doing its job. Zero would mean
+	// the default flags, StrictReader included.
+	if o.Strict &= ^opt.StrictReader; o.Strict == 0 {
+		o.Strict = opt.NoStrict
+	}
 
 	// Get all tables and sort it by file number.
 	fds, err := s.stor.List(storage.TypeTable)
